@@ -115,16 +115,16 @@ class Kernel:
         self.settings = {}
 
     # ---- numerals ---------------------------------------------------------------------
-    def num(self, v, text=False, base=10, lead=b""):
+    def num(self, v, text=False, base=10, lead=b"", suffix=""):
         """Rendering of v in `base`: real digits for ints, a registered digit placeholder for SymInt
         (the placeholder stands for the whole numeral, including a leading `lead` such as the `0` of %#o)."""
         if isinstance(v, SymInt):
             self._ntok += 1
-            tok = lead + str(700000000 + self._ntok).encode()   # digits 0-7 only: valid in base 8, 10, 16
+            tok = lead + str(700000000 + self._ntok).encode() + suffix.encode()   # digits 0-7 only: valid in base 8, 10, 16
             self.shadows.register(tok, v)
         else:
             digits = {8: "%o", 10: "%d", 16: "%X"}[base] % int(v)
-            tok = lead + digits.encode()
+            tok = lead + digits.encode() + suffix.encode()
         return tok.decode() if text else tok
 
     # ---- fault gate -------------------------------------------------------------------
@@ -162,9 +162,33 @@ class Kernel:
     def _known_space(self, p):
         return p.startswith(("/proc/", "/sys/", "/dev/", "/etc/"))
 
+    def _children(self, d):
+        """names directly under directory d implied by the paths the model knows (None if d is not implied)"""
+        pre = d.rstrip("/") + "/"
+        out, found = set(), False
+        for n in list(self.files) + list(self.links) + list(self.dirs):
+            if isinstance(n, str) and n.startswith(pre):
+                found = True
+                out.add(n[len(pre):].split("/", 1)[0])
+        return sorted(out) if found else None
+
+    def _all_paths(self):
+        out = set()
+        for n in list(self.files) + list(self.links) + list(self.dirs):
+            if isinstance(n, str):
+                out.add(n)
+                parts = n.split("/")
+                for i in range(2, len(parts)):
+                    out.add("/".join(parts[:i]))
+        return out
+
     def listdir(self, p):
         key = p.decode() if isinstance(p, bytes) else p
         self.access("listdir", key)
+        if key not in self.dirs:
+            ch = self._children(key)
+            if ch is not None:
+                return [n.encode() for n in ch] if isinstance(p, bytes) else ch
         if key in self.dirs:
             names = self.dirs[key]
             if isinstance(names, BaseException):
@@ -206,7 +230,7 @@ class Kernel:
             if isinstance(data, BaseException):
                 raise data
             return StatResult()
-        if p in self.dirs:
+        if p in self.dirs or self._children(p) is not None:
             return StatResult(_stat.S_IFDIR | 0o755)
         if p in self.links:
             t = self.links[p]
@@ -226,8 +250,7 @@ class Kernel:
     def glob(self, pat):
         import fnmatch
 
-        names = set(self.files) | set(self.dirs) | set(self.links)
-        return sorted(n for n in names if fnmatch.fnmatchcase(n, pat) and n.count("/") == pat.count("/"))
+        return sorted(n for n in self._all_paths() if fnmatch.fnmatchcase(n, pat) and n.count("/") == pat.count("/"))
 
     def kill(self, pid, sig):
         if isinstance(pid, SymInt):
@@ -382,6 +405,8 @@ class OsProxy:
         return self.k.exists(p)
 
     def sysconf(self, name):
+        if name in getattr(self.k, "sysconf_errors", ()):
+            raise ValueError("unrecognized configuration name")
         return self.k.sysconf[name]
 
     def statvfs(self, path):
